@@ -84,6 +84,18 @@ func (h *hist) crashStep(dir string) {
 			before[f.Seq][iv] = st
 		}
 	}
+	// marked tables that are not on level 0 when the crashing job starts (compacted / moved before their rollup)
+	notL0 := 0
+	for _, f := range h.files {
+		b := readBook(h.fams[f.Fam].fam)
+		if lvl, live := b.Level[f.Number]; len(b.Marks[f.Number]) > 0 && (!live || lvl != 0) {
+			notL0++
+		}
+	}
+	if notL0 > 0 {
+		res.count("crash.histories_with_marked_files_not_on_level0", 1)
+		res.count("crash.marked_files_not_on_level0_at_the_crashing_rollup", notL0)
+	}
 	h.beforeTrigger = func() {
 		world.Enable(true)
 		world.Snapshot("initial")
